@@ -1324,11 +1324,22 @@ def swapToTrusted (cx : Cx) (proofs : List WProof) (mm : MemMint) : PM UInt64 :=
   let mem ← eff .memGet
   subM "swapProofs" (swapProofs cx proofsToSwap mm (memMint mem mem.defaultMint))
 
+/-- keyset ids in order of first occurrence -/
+def firstOccurrences (l : List KsId) : List KsId := l.foldl (fun acc x => if acc.contains x then acc else acc ++ [x]) []
+
+/-- `verifyProofsDLEQ(proofs, mintURL, activeKeyset)` (F19, repaired in /repo 3f789a7: the code used to verify EVERY
+    DLEQ proof against the keys of the ACTIVE keyset, `proofs.all (fun p => !p.dleq || p.ks == keyset.id)`, so a token of
+    an older keyset was refused as "invalid DLEQ proof" after a rotation): each DLEQ proof is verified against the keys
+    of the proof's OWN keyset; the keys of a keyset other than the active one are fetched from the mint, once per
+    keyset, at its first proof.  The DLEQ proofs themselves are the honest mint's (valid under their keyset's keys). -/
+def verifyProofsDLEQ (mi : Nat) (active : KsId) (proofs : List WProof) : PM Unit :=
+  forEachM (0 : KsId) (firstOccurrences ((proofs.filter (fun p => p.dleq && p.ks != active)).map (·.ks)))
+    (fun ks => cTry (.cKeysetById mi ks))
+
 /-- `Receive(token, swapToTrusted)`. -/
 def receive (cx : Cx) (tokenMint : Nat) (proofs : List WProof) (swapTrusted : Bool) : PM UInt64 := do
   let keyset ← subM "getActiveKeyset" (getActiveKeyset tokenMint)
-  let dleqOk ← pureSub "nut12.VerifyProofsDLEQ" (proofs.all (fun p => !p.dleq || p.ks == keyset.id))
-  if !dleqOk then throw "invalid-dleq"
+  subM "verifyProofsDLEQ" (verifyProofsDLEQ tokenMint keyset.id proofs)
   let lock := match proofs.head? with | some p => p.lock | none => none
   if (match lock with | some l => l.owner != cx.seed | none => false) then throw "cannot-sign"
   let proofsToSwap ← whenM lock.isSome
